@@ -305,4 +305,14 @@ PROPS = {
     },
 }
 
-NOT_APPLICABLE = {}
+NOT_APPLICABLE = {
+    "C02": "check not built yet (planned: language equivalence of the regex literals with the RFC 7230 grammar + Verus glue; the field-line half is under contract in unit `parse`, claimed under C01)",
+    "C04": "quantifies over histories of invocations of an opaque generic async handler closure, the blocking pool and panics; a modular contract cannot count calls of F without instrumenting its call sites, and neither Verus nor Kani models the pool or unwinding (the 'closed after error / 5xx / unread body' clause is carried by C05 / C08)",
+    "C10": "about destructor execution at scope exit, future cancellation and panic (Rust drop semantics + temp-file's Drop + the file system); no statement in /repo to attach an obligation to, and neither verifier models drop timing or the file system",
+    "C11": "sender / writer interleavings are concurrency (bounded channel between threads); the encoder is write! + str::lines, outside both verifiers; the one contract-level fact -- EventReceiver can return Ok(0) for an event with empty data, which copy_chunked_async's contract reads as end of stream -- is recorded in C07's assumptions",
+    "C12": "the slot pool is a channel mutated through &self from several tasks / threads and refilled in Drop; expressing it needs Verus' atomic-invariant machinery inside the real types, and Kani has no thread or channel support",
+    "C13": "a liveness / race property of accept_loop's await points against permit revocation; deductive contracts on sequentialised code cannot express it",
+    "C15": "split / trim / splitn iterator chains into a HashMap and a Display impl made of write!; no arithmetic or structural core to specify, and HashMap + fmt are beyond Kani's budget here",
+    "C17": "the behaviour is std::fmt's Debug / Display for str, integers and floats; the repository functions are thin wrappers whose postcondition would be an assumed contract of std",
+    "C18": "thread-local tag isolation and exactly-once routing through a global mutex and channels under concurrent install / clear; concurrency is outside contract-based verification of sequentialised code",
+}
